@@ -45,7 +45,9 @@ RULE = ('seeded random dag specs x c18gen extensions (1-4 script scopes: main + 
         'options.bfg hierarchy, project()/no project(), junk files; build-directory layouts: separate, '
         'nested <src>/build with sources named build_aux/.. buildtools/.. build.cfg build-data/.. and a '
         'whole-tree ** search excluding build/, sibling directories whose paths are string prefixes of '
-        'each other) x back end x 3 archive formats '
+        'each other; absolute strings / Path(.., Root.absolute) naming files outside the source tree in '
+        'extra_deps= of 5 builtins, extra_compile_deps=, alias deps, build_step files=, generic_file) '
+        'x back end x 3 archive formats '
         '(zip on the fresh tree, gzip via dist or dist-gzip and bzip2 after building everything, zip '
         'again after files were added to searched directories); '
         'distinct = (dag shape, back end, set of (builtin, dist flag) pairs used); non-trivial = '
@@ -75,6 +77,7 @@ def floors(tier):
             'rebuild-configured': 15, 'rebuild-targets-compared': 45,
             'rebuild-steps-compared': 200, 'submodule-scripts-required': 15,
             'late-additions:required': 10, 'nested-builddir-files-absent': 50,
+            'outside-files-absent': 100,
             'distinct_nontrivial': 10}
 
 
@@ -98,6 +101,7 @@ class P18(dagrun.Project):
         super().__init__(case['spec'], case['backend'], root=root, conf_args=ext['conf_args'])
         self.src = src
         self.bld = c18gen.build_dir(ext, src)
+        self.outside = os.path.join(os.path.dirname(root), 'outside')
         self.log = os.path.join(root, 'log-' + tag)
         self.env['VSTUB_LOG'] = self.log
         # stub transpilers (create the -o file, record): lex and Qt's rcc
@@ -173,6 +177,20 @@ def check_archive(res, wb, target, fmt, apath, top, tree, model, p):
     # one documented top-level directory
     pre = top + '/'
     outside = sorted(n for n in list(files) + list(dirs) if not n.startswith(pre) and n != top)
+    outdir = p.outside if p.ext.get('outside') else None
+    alien = [n for n in outside if outdir and
+             ('/' + n.lstrip('/')).startswith(outdir + '/') and
+             os.path.isfile('/' + n.lstrip('/'))]
+    for n in alien:
+        # a file from outside the source tree (named by an absolute path in the script)
+        res.violate(('member-from-outside-srcdir',), dict(w, member=n, expected_top=top))
+        files.pop(n, None)
+    outside = [n for n in outside if n not in alien]
+    if outdir:
+        res.ev('outside-files-absent', len(p.ext['outside']) - len(alien))
+        res.classes.update('outside-ref:' + i['form'] for i in p.ext['items'] if i['k'] == 'out')
+    if alien:
+        outside = [n for n in outside if not (outdir + '/').startswith('/' + n.strip('/') + '/')]
     if outside:
         res.violate(('wrong-top-level-dir',), dict(w, expected_top=top, members=outside[:8]))
         return None
@@ -325,7 +343,11 @@ def run_case(case):
     root = core.mkscratch('c18')
     wb = {'backend': backend, 'index': case.get('index')}
     try:
-        tree = c18gen.render(spec, ext)
+        outside = os.path.join(root, 'outside')
+        if ext.get('outside'):
+            proj.write_tree(outside, ext['outside'])
+        tree = {k: v.replace(c18gen.OUT, outside) if isinstance(v, str) else v
+                for k, v in c18gen.render(spec, ext).items()}
         a = P18(case, os.path.join(root, 'a'), os.path.join(root, 'a', ext['srcname']), 'a')
         proj.write_tree(a.src, tree)
         a.prepare_builddir()
